@@ -15,7 +15,7 @@ MUST_REACH = ["deadline-fired", "deadline-in-the-past-at-entry", "deadline-moved
 def units(tier):
     quick = tier == "quick"
     us = []
-    B = 100 if quick else 1500
+    B = 240 if quick else 1500
 
     def add(name, **p):
         p.setdefault("T", 2)
